@@ -104,6 +104,7 @@ struct FnEmitter {
   int nextPc = 1;
   std::vector<int> pcs;
   std::set<const Value*> privatePtrs;
+  int pauseNextPc = -1;
   bool usesSetjmp = false;
   const Instruction* setjmpVal = nullptr;
 
